@@ -79,6 +79,14 @@ type State struct {
 	nobl     int
 	loopSeen map[*ssa.BasicBlock]bool
 	sliceBase map[string]sliceBaseInfo
+	calls     []CallRec // dynamic (interface / function-value) calls made so far on this path
+	callsLost bool      // a loop was entered: the call log is no longer exact
+}
+
+// CallRec: one dynamically dispatched call made by this activation
+type CallRec struct {
+	Args    []Term
+	Results []Term
 }
 
 func (st *State) clone() *State {
@@ -120,6 +128,8 @@ func (st *State) clone() *State {
 		n.loopSeen[k] = v
 	}
 	n.trail = append([]string(nil), st.trail...)
+	n.calls = append([]CallRec(nil), st.calls...)
+	n.callsLost = st.callsLost
 	n.sliceBase = make(map[string]sliceBaseInfo, len(st.sliceBase))
 	for k, v := range st.sliceBase {
 		n.sliceBase[k] = v
